@@ -48,6 +48,19 @@ Print Assumptions tridiag_writes.
 Example tridiag_writes_nonvacuous : wfT ex3 /\ 2 < tn ex3 /\ 1 < tn ex3 /\ in_band 2 1.
 Proof. unfold wfT, in_band; cbn; repeat split; auto. Qed.
 
+(* ... and so does any history of writes: refused writes leave the matrix as it was ([wstep]), accepted ones update the
+   textbook matrix pointwise ([dstep]); well-formedness is an invariant of the history *)
+Theorem tridiag_write_history : forall (A : Arith) (ws : list (nat * nat * A)) (t : tridiag A), wfT t ->
+  wfT (fold_left wstep ws t) /\ tn (fold_left wstep ws t) = tn t /\
+  forall a b, a < tn t -> b < tn t ->
+    dense (fold_left wstep ws t) a b = fold_left (dstep (tn t)) ws (dense t) a b.
+Proof. intros A ws t. exact (write_history_lemma ws t). Qed.
+Check tridiag_write_history : forall (A : Arith) (ws : list (nat * nat * A)) (t : tridiag A), wfT t ->
+  wfT (fold_left wstep ws t) /\ tn (fold_left wstep ws t) = tn t /\
+  forall a b, a < tn t -> b < tn t ->
+    dense (fold_left wstep ws t) a b = fold_left (dstep (tn t)) ws (dense t) a b.
+Print Assumptions tridiag_write_history.
+
 (* ---- arithmetic = arithmetic on the dense twin (ring laws: -0 = 0, 0 + 0 = 0, 0 * s = 0) ---- *)
 Theorem tridiag_arith : forall (A : Arith), RingLaws A -> forall (a b : tridiag A) (s : A),
   wfT a -> wfT b -> tn a = tn b ->
